@@ -9,7 +9,7 @@ from predicate import optimize
 from predicate import predicate as PP
 from predicate.named_predicate import NamedPredicate
 from predicate.negate import negate
-from predicate.set_predicates import is_subset_p
+from predicate.set_predicates import in_p, is_subset_p, not_in_p
 from predicate.standard_predicates import has_key_p, has_length_p, lazy_p, regex_p, tee_p, this_p, root_p
 
 T, F = PP.always_true_p, PP.always_false_p
@@ -36,6 +36,10 @@ def atoms(tier):
     ats = [m() for m in gen.scalar_atom_makers() + gen.set_atom_makers()]
     ats += [PP.is_empty_p, PP.is_not_empty_p, has_length_p(2), has_key_p(1), regex_p("^a"), lazy_p("x"), tee_p(enc.FN_LIB[2][0]),
             NamedPredicate(name="p"), this_p.predicate, root_p.predicate, is_subset_p(set())]
+    # constants outside the model's ordered sort (None, str, bool): judged by the search (the correspondence skips what it cannot encode)
+    ats += [PP.EqPredicate(v=None), PP.NePredicate(v=None), in_p(None), not_in_p(None), in_p(None, 1), PP.EqPredicate(v="a"), PP.NePredicate(v="a"),
+            in_p("a", "b"), not_in_p("a"), PP.EqPredicate(v=True), PP.NePredicate(v=False), PP.GePredicate(v="m"), PP.LtPredicate(v="m"),
+            PP.EqPredicate(v=(1, 2)), PP.NePredicate(v=2.5)]
     return ats
 
 
@@ -71,4 +75,5 @@ def replay(payload):
     return {"fails": True, "input": payload["replay"].get("input")}
 
 
-main({"correspondence": correspondence, "search": search, "replay": replay})
+if __name__ == "__main__":
+    main({"correspondence": correspondence, "search": search, "replay": replay})
